@@ -498,7 +498,7 @@ static void log_step (int t) {
 static int run_random (long runs, unsigned seed, const char *init, const char *violdir, const char *prop) {
 	long r, viols = 0, hung = 0, steps_total = 0, nontriv = 0;
 	int maxdl;
-	for (r = 0; r < runs && viols < 40; r++) {     /* forty failing runs are enough (a livelock makes every run slow) */
+	for (r = 0; r < runs && viols < 40 && rt_watchdog_hits < 3; r++) {     /* forty failing runs are enough (a livelock makes every run slow) */
 		char *sched = NULL; size_t sl = 0; FILE *sf = open_memstream (&sched, &sl);
 		long guard = 0;
 		int pct_depth = (int) (r % 4);      /* 0: uniform random; 1..3: priority schedule with that many change points */
